@@ -204,6 +204,9 @@ def compare(spec, md, obs, dialect, P):
                     if not cols:
                         if not md['cols'].get((a['rev'][0], a['rev'][1])):
                             P.add('missing-column', shape, 'neither side of one-to-one %s.%s holds a column' % (e['name'], a['name']))
+                        for key in ('column', 'columns'):
+                            if key in a['opts']:
+                                P.add('column-name-ignored', shape, '%s.%s declares %r but holds no column' % (e['name'], a['name'], a['opts'][key]))
                         continue
                     if len(cols) != width:
                         P.add('column-count', shape, '%s.%s has columns %r, target key has %d' % (e['name'], a['name'], cols, width))
@@ -286,8 +289,11 @@ def compare(spec, md, obs, dialect, P):
                 rev = find_attr(spec, a['rev'][0], a['rev'][1])
                 P.add('on-delete', '%s<-%s(cascade_delete=%r)' % (a['cls'], rev['cls'], rev['opts'].get('cascade_delete')),
                       '%r%r has ON DELETE %s, expected %s' % (t, cols, f['on_delete'], '/'.join(map(str, allowed))))
-            if 'fk_name' in a['opts'] and dialect != 'sqlite' and f['name'] != a['opts']['fk_name']:
-                P.add('fk-name-ignored', 'to-one(fk_name=)', 'declared %r, found %r' % (a['opts']['fk_name'], f['name']))
+            rev = find_attr(spec, a['rev'][0], a['rev'][1])
+            declared = [x['opts']['fk_name'] for x in (a, rev) if 'fk_name' in x['opts'] and x['cls'] != 'Set']
+            if declared and dialect != 'sqlite' and f['name'] not in declared:
+                P.add('fk-name-ignored', 'to-one(fk_name=)' if 'fk_name' in a['opts'] else 'to-one(reverse side fk_name=)',
+                      'declared %r, found %r' % (declared, f['name']))
             _fk_types(P, shape, obs, dialect, t, f)
         for cols in ofks: P.add('extra-fk', 'fk', '%r has an unexplained foreign key on %r' % (t, cols))
     # ---------------- many-to-many tables
@@ -333,12 +339,28 @@ def compare(spec, md, obs, dialect, P):
                 P.add('on-delete', shape, 'm2m %r%r has ON DELETE %s' % (t, tuple(cols), f['on_delete']))
             _fk_types(P, shape, obs, dialect, t, f)
         for cols in ofks: P.add('extra-fk', shape, '%r has an unexplained foreign key on %r' % (t, cols))
-        for sa_e, sa_n in ((en, an), other):
-            sa = find_attr(spec, sa_e, sa_n)
-            for key, single in (('columns', 'column'), ('reverse_columns', 'reverse_column')):
-                want = sa['opts'].get(key) or ([sa['opts'][single]] if single in sa['opts'] else None)
-                if want and not set(want) <= set(ocn):
-                    P.add('column-name-ignored', 'Set(%s=)' % key, 'declared %r, table has %r' % (want, ocn))
+        # options declared on one side: column(s)= / fk_name= of a Set name the link columns (and their foreign key)
+        # that reference the Set's *target*; index= names the index of the link columns that reference the *declaring*
+        # entity; on a symmetric Set the plain options belong to `columns`, the reverse_* options to `reverse_columns`
+        fk_by_cols = {tuple(f['cols']): f for f in ot['fks']}
+        if sym: decl = [(a, '', sides[0][1], sides[0][1]), (a, 'reverse_', sides[1][1], sides[1][1])]
+        else: decl = [(a, '', sides[1][1], sides[0][1]), (find_attr(spec, other[0], other[1]), '', sides[0][1], sides[1][1])]
+        for sa, pre, own_cols, cols_to_owner in decl:
+            key, single = pre + 'columns', pre + 'column'
+            want = sa['opts'].get(key) or ([sa['opts'][single]] if single in sa['opts'] else None)
+            if want and not set(want) <= set(ocn):
+                P.add('column-name-ignored', 'Set(%s=)' % key, 'declared %r, table has %r' % (want, ocn))
+            elif want and list(want) != list(own_cols):
+                P.add('column-name-ignored', 'Set(%s=):wrong-side' % key, 'declared %r for the reference to %s, used %r' % (want, sa['type'], own_cols))
+            want = sa['opts'].get(pre + 'fk_name')
+            f = fk_by_cols.get(tuple(own_cols))
+            if want and f is not None and dialect != 'sqlite' and f['name'] != want:
+                P.add('fk-name-ignored', 'Set(%sfk_name=)' % pre, 'declared %r, foreign key on %r is named %r' % (want, tuple(own_cols), f['name']))
+            want = sa['opts'].get(pre + 'index')
+            if isinstance(want, str):
+                found = [n for n, c, u in ot['indexes'] if tuple(c) == tuple(cols_to_owner)]
+                if found and want not in found:
+                    P.add('index-name-ignored', 'Set(%sindex=<name>)' % pre, 'declared %r, index on %r is named %r' % (want, tuple(cols_to_owner), found))
     extra = [t for t in otables if t not in expected_tables]
     if extra: P.add('extra-table', 'table', 'unexplained tables %r' % (extra,))
 
